@@ -244,7 +244,7 @@ def step (div : DivFn) (s : St) (a : Act) : Option St :=
   -- discipline actions
   | a =>
     match s.pc with
-    | .top => (match a with | .top c => stepTop div s c | _ => none)
+    | .top => (match a with | .top c => (if s.cfg.v1 then stepTop div s c else none) | _ => none)
     | .calc => (match a with | .calc => some (stepCalc div s) | _ => none)
     | .waitFb =>
       (match a with
